@@ -704,7 +704,7 @@ func TestVerif_C14_e2e_h1(t *testing.T) {
 	e := c14NewEnv(t, "h1")
 	defer e.close()
 	r := s.Rand()
-	cases := append(c14Matrix(r, "h1"), c14Random(r, "h1", verifh.N(150, 3000), verifh.N(3, 12))...)
+	cases := append(c14Matrix(r, "h1"), c14Random(r, "h1", verifh.N(300, 8000), verifh.N(3, 16))...)
 	c14RunLane(t, s, e, cases, c14Need)
 	s.Finish()
 }
@@ -715,7 +715,7 @@ func TestVerif_C14_e2e_h2(t *testing.T) {
 	e := c14NewEnv(t, "h2")
 	defer e.close()
 	r := s.Rand()
-	cases := append(c14Matrix(r, "h2"), c14Random(r, "h2", verifh.N(150, 3000), verifh.N(3, 12))...)
+	cases := append(c14Matrix(r, "h2"), c14Random(r, "h2", verifh.N(300, 8000), verifh.N(3, 16))...)
 	c14RunLane(t, s, e, cases, c14Need)
 	s.Finish()
 }
@@ -726,7 +726,7 @@ func TestVerif_C14_e2e_h3(t *testing.T) {
 	e := c14NewEnv(t, "h3")
 	defer e.close()
 	r := s.Rand()
-	cases := append(c14Matrix(r, "h3"), c14Random(r, "h3", verifh.N(120, 3000), verifh.N(2, 12))...)
+	cases := append(c14Matrix(r, "h3"), c14Random(r, "h3", verifh.N(250, 8000), verifh.N(2, 16))...)
 	c14RunLane(t, s, e, cases, c14Need)
 	s.Finish()
 }
@@ -746,7 +746,7 @@ func TestVerif_C14_cross(t *testing.T) {
 	m := c14Matrix(r, "x")
 	r.Shuffle(len(m), func(i, j int) { m[i], m[j] = m[j], m[i] })
 	base = append(base, m[:verifh.N(90, len(m))]...)
-	base = append(base, c14Random(r, "x", verifh.N(80, 1500), verifh.N(1, 4))...)
+	base = append(base, c14Random(r, "x", verifh.N(150, 4000), verifh.N(1, 6))...)
 	hist := map[string]int{}
 	for _, b := range base {
 		var answers []string
@@ -847,7 +847,7 @@ func TestVerif_C14_h1gz(t *testing.T) {
 			streams = append(streams, stream{"trunc", p, w[:cut], io.EOF})
 		}
 	}
-	for i, n := 0, verifh.N(400, 20000); i < n; i++ {
+	for i, n := 0, verifh.N(400, 60000); i < n; i++ {
 		pc := r.Intn(4)
 		if r.Intn(50) == 0 {
 			pc = 4
